@@ -97,6 +97,28 @@ class HistFamily(Family):
         return jobs
 
 
+def cover_categories(Ls, n, rng):
+    """n lists that cover the value-type categories: lists are grouped by the set of special
+    value-type classes they contain (instrumented types by which special members are
+    non-trivial, floating point, std::byte) and by having a VaryingSize parameter; the groups
+    are visited round-robin, so that every category present gets a list before any gets two"""
+    special = (lay.TTRK, lay.TTRKC, lay.TTRKCC, lay.TTRKMC, lay.TTRKMA, lay.TTRKCA, lay.TFLT, lay.TBYTE)
+    groups = {}
+    for L in Ls:
+        key = (frozenset(p.ty for p in L if p.ty in special), lay.has_varying(L))
+        groups.setdefault(key, []).append(L)
+    keys = sorted(groups, key=lambda k: (sorted(k[0]), k[1]))
+    rng.shuffle(keys)
+    for k in keys:
+        rng.shuffle(groups[k])
+    out = []
+    while len(out) < n and any(groups[k] for k in keys):
+        for k in keys:
+            if groups[k] and len(out) < n:
+                out.append(groups[k].pop())
+    return out
+
+
 class SpecialFamily(Family):
     """copy/move/swap histories over several vectors, for a covering set of allocator kinds"""
 
@@ -111,8 +133,7 @@ class SpecialFamily(Family):
             kinds = gen.AKINDS_ALL
         jobs = []
         Ls = self.lists(rng, tier, self.nlists)
-        rng.shuffle(Ls)
-        Ls = Ls[:(14 if tier == "quick" else 60)]
+        Ls = cover_categories(Ls, 16 if tier == "quick" else 60, rng)
         for li, L in enumerate(Ls):
             # covering design: every list gets two kinds, rotating
             for K in ([kinds[li % len(kinds)], kinds[(li * 7 + 3) % len(kinds)]] if tier == "quick" else rng.sample(kinds, 4)):
@@ -277,9 +298,9 @@ class ProxyFamily(Family):
 class ElemFamily(Family):
     """ContiguousElement value semantics (C12) over a covering set of allocator kinds"""
 
-    def __init__(self, nlists=20, nscripts=12, moved_targets=True):
+    def __init__(self, nlists=20, nscripts=12, moved_targets=True, select=None):
         super().__init__()
-        self.nlists, self.nscripts, self.moved_targets = nlists, nscripts, moved_targets
+        self.nlists, self.nscripts, self.moved_targets, self.select = nlists, nscripts, moved_targets, select
 
     def jobs(self, rng, tier):
         mult = 1 if tier == "quick" else 5
@@ -287,7 +308,10 @@ class ElemFamily(Family):
         if tier != "quick":
             kinds = gen.AKINDS_ALL
         jobs = []
-        for li, L in enumerate(self.lists(rng, tier, self.nlists)):
+        Ls = self.lists(rng, tier, self.nlists)
+        if self.select is not None:
+            Ls = [L for L in Ls if self.select(L)]
+        for li, L in enumerate(Ls):
             K = kinds[(li * 5 + 1) % len(kinds)]
             scripts = []
             for _ in range(self.nscripts * mult):
@@ -583,7 +607,10 @@ FAMILIES["C18"] = Multi(EmptyFamily(), HistFamily(nlists=8, nhist=6, nfill=2))
 FAMILIES["C01"] = Multi(HistFamily(allow_overlap=True), SpecialFamily(nlists=6, nscripts=8), SweepFamily())
 FAMILIES["C05"] = Multi(HistFamily(nlists=16, nhist=8), SpecialFamily(nlists=6, nscripts=8), SweepFamily())
 FAMILIES["C07"] = Multi(HistFamily(nlists=16, nhist=8), SpecialFamily(nlists=6, nscripts=8))
-FAMILIES["C06"] = Multi(HistFamily(nlists=16, nhist=8, allow_overlap=True), SpecialFamily(nlists=6, nscripts=8))
+# "every object stored in a vector or ContiguousElement": element histories on the lists with
+# instrumented value types as well (seeded change C06f)
+FAMILIES["C06"] = Multi(HistFamily(nlists=16, nhist=8, allow_overlap=True), SpecialFamily(nlists=6, nscripts=8),
+                        ElemFamily(nlists=6, nscripts=14, select=lambda L: any(lay.ntc(p) or lay.ntd(p) for p in L)))
 FAMILIES["C02"] = Multi(HistFamily(strict_block=False, nhist=6, nfill=16), SweepFamily())
 FAMILIES["C13"] = Multi(CompareFamily(), SweepFamily(nunits=2))
 FAMILIES["C14"] = Multi(CompareFamily(), SweepFamily(nunits=2))
